@@ -50,6 +50,95 @@ type vGTModel struct {
 	truth   [][]RawType // grows block by block
 	nblocks int
 	second  int // secondaries observed
+	// RPC mode: requests go through the SourceControl methods clients call; view is the connection set of the last
+	// GROUPTRIGGER message sent to clients (what a client believes; replayed to late joiners by SENDALL)
+	ctl     *SourceControl
+	updates chan ClientUpdate
+	view    map[vPair]bool
+}
+
+// vGTAny makes a plain AnySource a DataSource (the two methods every concrete source adds)
+type vGTAny struct{ *AnySource }
+
+func (vGTAny) Sample() error   { return nil }
+func (vGTAny) StartRun() error { return nil }
+
+// rpcMode puts a SourceControl in front of the source, with a goroutine that serves queued requests one at a
+// time exactly as the core loop's request branch does (`request()`), and marks the run active.
+func (m *vGTModel) rpcMode() {
+	sc := new(SourceControl)
+	sc.queuedRequests = make(chan func())
+	sc.queuedResults = make(chan error)
+	m.updates = make(chan ClientUpdate, 64)
+	sc.clientUpdates = m.updates
+	if m.lancero {
+		sc.ActiveSource = m.ds.(*LanceroSource)
+	} else {
+		sc.ActiveSource = vGTAny{m.any}
+	}
+	sc.isSourceActive = true
+	m.any.RunDoneActivate()
+	go func() {
+		for f := range sc.queuedRequests {
+			f()
+		}
+	}()
+	m.ctl = sc
+	m.view = map[vPair]bool{}
+}
+
+func (m *vGTModel) close() {
+	if m.ctl != nil {
+		close(m.ctl.queuedRequests)
+	}
+	m.src.close()
+}
+
+func (m *vGTModel) viewString() string {
+	var ps []string
+	for p := range m.view {
+		ps = append(ps, fmt.Sprintf("%d>%d", p.s, p.r))
+	}
+	sort.Strings(ps)
+	return strings.Join(ps, ",")
+}
+
+// rpcRequest issues op through the RPC methods and brings the client's view up to date from the updates sent.
+func (m *vGTModel) rpcRequest(op vGTOp) error {
+	var ok, yes, no = false, true, false
+	var err error
+	switch op.kind {
+	case "add":
+		err = m.ctl.AddGroupTriggerCoupling(GroupTriggerState{Connections: op.pairs}, &ok)
+	case "del":
+		err = m.ctl.DeleteGroupTriggerCoupling(&GroupTriggerState{Connections: op.pairs}, &ok)
+	case "stop":
+		err = m.ctl.StopTriggerCoupling(&no, &ok)
+	case "couple":
+		switch op.coupling {
+		case ErrToFB:
+			err = m.ctl.CoupleErrToFB(&yes, &ok)
+		case FBToErr:
+			err = m.ctl.CoupleFBToErr(&yes, &ok)
+		default:
+			err = m.ctl.CoupleErrToFB(&no, &ok)
+		}
+	}
+	for {
+		select {
+		case u := <-m.updates:
+			if st, isGT := u.state.(GroupTriggerState); isGT && u.tag == "GROUPTRIGGER" {
+				m.view = map[vPair]bool{}
+				for s, rs := range st.Connections {
+					for _, r := range rs {
+						m.view[vPair{s, r}] = true
+					}
+				}
+			}
+		default:
+			return err
+		}
+	}
 }
 
 func vGTNew(nchan int, lancero bool) *vGTModel {
@@ -111,7 +200,11 @@ func (m *vGTModel) apply(x *vexp.X, op vGTOp) (string, string) {
 	var err error
 	switch op.kind {
 	case "add", "del":
-		err = m.ds.ChangeGroupTrigger(op.kind == "add", &GroupTriggerState{Connections: op.pairs})
+		if m.ctl != nil {
+			err = m.rpcRequest(op)
+		} else {
+			err = m.ds.ChangeGroupTrigger(op.kind == "add", &GroupTriggerState{Connections: op.pairs})
+		}
 		for s, rs := range op.pairs {
 			for _, r := range rs {
 				p := vPair{s, r}
@@ -126,10 +219,18 @@ func (m *vGTModel) apply(x *vexp.X, op vGTOp) (string, string) {
 			}
 		}
 	case "stop":
-		err = m.ds.StopTriggerCoupling()
+		if m.ctl != nil {
+			err = m.rpcRequest(op)
+		} else {
+			err = m.ds.StopTriggerCoupling()
+		}
 		m.ref = map[vPair]bool{}
 	case "couple":
-		err = m.ds.SetCoupling(op.coupling)
+		if m.ctl != nil {
+			err = m.rpcRequest(op)
+		} else {
+			err = m.ds.SetCoupling(op.coupling)
+		}
 		if m.lancero {
 			for i := 0; i < m.nchan; i += 2 {
 				delete(m.ref, vPair{i, i + 1})
@@ -163,6 +264,19 @@ func (m *vGTModel) apply(x *vexp.X, op vGTOp) (string, string) {
 	for p := range m.ref {
 		if !got[p] {
 			return fmt.Sprintf("after %s the reported state lacks %d->%d; expected {%s}, reported %v", op.name, p.s, p.r, m.refString(), rep.Connections), "reported-missing-connection"
+		}
+	}
+	if m.ctl != nil {
+		// what clients have been told (last GROUPTRIGGER message) == the set in use
+		for p := range m.view {
+			if !m.ref[p] {
+				return fmt.Sprintf("after %s (err=%v) clients have last been told {%s}, which contains %d->%d, but the set in use is {%s}", op.name, err, m.viewString(), p.s, p.r, m.refString()), "client-view-extra-connection"
+			}
+		}
+		for p := range m.ref {
+			if !m.view[p] {
+				return fmt.Sprintf("after %s (err=%v) clients have last been told {%s}, which lacks %d->%d; the set in use is {%s}", op.name, err, m.viewString(), p.s, p.r, m.refString()), "client-view-missing-connection"
+			}
 		}
 	}
 	return "", ""
@@ -283,6 +397,9 @@ func (m *vGTModel) canon() string {
 		}
 	}
 	sort.Strings(ps)
+	if m.ctl != nil {
+		return fmt.Sprintf("%s|n=%d|told=%s", strings.Join(ps, ","), m.any.broker.nconnections, m.viewString())
+	}
 	return fmt.Sprintf("%s|n=%d", strings.Join(ps, ","), m.any.broker.nconnections)
 }
 
@@ -316,9 +433,12 @@ func vGTOps(nchan int, lancero bool) []vGTOp {
 	return ops
 }
 
-func vGTRun(x *vexp.X, nchan int, lancero bool, ops []vGTOp, hist []int, cycleEvery bool) (string, vexp.Result) {
+func vGTRun(x *vexp.X, nchan int, lancero bool, ops []vGTOp, hist []int, cycleEvery bool, rpc ...bool) (string, vexp.Result) {
 	m := vGTNew(nchan, lancero)
-	defer m.src.close()
+	if len(rpc) > 0 && rpc[0] {
+		m.rpcMode()
+	}
+	defer m.close()
 	var names []string
 	for i, oi := range hist {
 		names = append(names, ops[oi].name)
@@ -338,7 +458,7 @@ func TestVerifC09(t *testing.T) {
 	r := vexp.NewRunner("C09")
 	defer r.Finish()
 	depth := 3
-	r.SetBound(fmt.Sprintf("BFS to closure over connection sets: generic source with 3 channels (add/delete of every pair over indices -1..3, multi-pair requests, stop, NoCoupling) and Lancero source with 4 channels (err/fb couplings, selected pairs, stop); after every edit 9 data cycles (every subset of channels firing + two sources on one frame); plus un-merged DFS of all edit sequences to depth %d", depth))
+	r.SetBound(fmt.Sprintf("BFS to closure over connection sets: generic source with 3 channels (add/delete of every pair over indices -1..3, multi-pair requests, stop, NoCoupling) and Lancero source with 4 channels (err/fb couplings, selected pairs, stop); after every edit 9 data cycles (every subset of channels firing + two sources on one frame); plus un-merged DFS of all edit sequences to depth %d; the same closure and all sequences of depth 2 through the SourceControl RPC methods, where the connection set of the last GROUPTRIGGER message sent to clients must equal the set in use", depth))
 	for _, cfg := range []struct {
 		nchan   int
 		lancero bool
@@ -349,6 +469,26 @@ func TestVerifC09(t *testing.T) {
 			Run: func(x *vexp.X, hist []int) (string, vexp.Result) {
 				return vGTRun(x, cfg.nchan, cfg.lancero, ops, hist, false)
 			}})
+	}
+	// the same through the RPC methods, judging what clients are told (GROUPTRIGGER messages)
+	for _, cfg := range []struct {
+		nchan   int
+		lancero bool
+	}{{3, false}, {4, true}} {
+		cfg := cfg
+		ops := vGTOps(cfg.nchan, cfg.lancero)
+		r.BFS(fmt.Sprintf("rpc-bfs/nchan=%d/lancero=%v", cfg.nchan, cfg.lancero), vexp.BFSSpec{NumOps: len(ops),
+			Run: func(x *vexp.X, hist []int) (string, vexp.Result) {
+				return vGTRun(x, cfg.nchan, cfg.lancero, ops, hist, false, true)
+			}})
+		for first := range ops {
+			first := first
+			r.DFS(fmt.Sprintf("rpc-dfs/lancero=%v/first=%s", cfg.lancero, ops[first].name), -1, func(x *vexp.X) vexp.Result {
+				hist := []int{first, x.Choose(len(ops))}
+				_, res := vGTRun(x, cfg.nchan, cfg.lancero, ops, hist, false, true)
+				return res
+			})
+		}
 	}
 	ops := vGTOps(3, false)
 	for first := range ops {
